@@ -15,7 +15,7 @@
    follow their channel format by the C11 invariant (Heap/Labels.v covers reassignIds).
    Partial (suffix _partial): which numbers pack, stream, channel, track formats and track UIDs receive, and
    idempotence, are decided by the differential run only. *)
-From Adm Require Import Heap.Exec Heap.More Heap.Frame Heap.Reassign Heap.ReassignFull Heap.WF Heap.WF Heap.Uniq Heap.UniqReassign Heap.BlockIds Heap.Labels.
+From Adm Require Import Heap.Exec Heap.More Heap.Frame Heap.Reassign Heap.ReassignFull Heap.WF Heap.WF Heap.Uniq Heap.UniqReassign Heap.ReassignU Heap.BlockIds Heap.Labels.
 Local Open Scope N_scope.
 
 Theorem C14_set_id_changes_ids_only : forall h i s s' r e, get_elem s h = Some e ->
@@ -91,6 +91,11 @@ Theorem C14_ids_unique_after_reassign : forall d s s' u, reassign_ids d s = (s',
   MemOk s' /\ Uniq s'.
 Proof. exact reassign_ids_keeps_unique. Qed.
 Print Assumptions C14_ids_unique_after_reassign.
+
+(* ... and the whole C05 invariant, shapes of IDs included, so that the next Document::add again finds a free value *)
+Theorem C14_reassign_keeps_the_id_invariant : forall d s s' u, WF s -> U s -> reassign_ids d s = (s', inl u) -> U s'.
+Proof. exact reassign_ids_U. Qed.
+Print Assumptions C14_reassign_keeps_the_id_invariant.
 
 (* block formats follow their channel format after the call (the labelling of C11 is kept by reassignIds) *)
 Theorem C14_blocks_follow_after_reassign : forall d s s' u, reassign_ids d s = (s', inl u) -> Lab s -> Lab s'.
